@@ -101,3 +101,22 @@ Theorem C05_ctor_roundtrip_refuted :
     parse_rdata pname_dec s (compose s v) 0 (len (compose s v)) = Err E_SHORT.
 Proof. exact ctor_roundtrip_refuted. Qed.
 Print Assumptions C05_ctor_roundtrip_refuted.
+
+(* == on opaque record data inside AllRecordData: equality of type and octets
+   when the Unknown arm exists in the generated PartialEq impl (T1 flag), ... *)
+Theorem C05_unknown_eq_spec : forall t1 b1 t2 b2,
+  Gen.all_eq_has_unknown_arm = true ->
+  (all_eq_unknown t1 b1 t2 b2 = true <-> t1 = t2 /\ b1 = b2).
+Proof. exact unknown_eq_spec. Qed.
+Print Assumptions C05_unknown_eq_spec.
+
+(* ... and never true, not even for a value and itself, when it is missing *)
+Theorem C05_allrecorddata_eq_unknown_refuted :
+  Gen.all_eq_has_unknown_arm = false -> forall t b, all_eq_unknown t b t b = false.
+Proof. exact allrecorddata_eq_unknown_refuted. Qed.
+Print Assumptions C05_allrecorddata_eq_unknown_refuted.
+
+Theorem C05_zone_unknown_eq_spec : forall t1 b1 t2 b2,
+  zone_eq_unknown t1 b1 t2 b2 = true <-> t1 = t2 /\ b1 = b2.
+Proof. exact zone_unknown_eq_spec. Qed.
+Print Assumptions C05_zone_unknown_eq_spec.
